@@ -3,6 +3,7 @@ package vc
 import (
 	"go/types"
 	"sort"
+	"strings"
 )
 
 // State is one symbolic state (a set of concrete states described by pc).
@@ -123,6 +124,7 @@ func (h *Heap) region(s *State, name string, arity int, so Sort) *Mem {
 	m, ok := h.init[name]
 	if !ok {
 		m = h.C.NewBaseMem(name, arity, so, "0")
+		h.C.SetBaseTop(m, h.C.Const("top0", SInt))
 		h.init[name] = m
 	}
 	s.mem[name] = m
@@ -145,6 +147,10 @@ func (h *Heap) assumeTyped(s *State, v Value) {
 		fact := c.And(c.Ge(sl.Arr, c.Int(0)), c.Le(sl.Arr, s.allocTop), c.Ge(sl.Off, c.Int(0)), c.Ge(sl.Len, c.Int(0)), c.Le(sl.Len, sl.Cap),
 			c.Implies(c.Eq(sl.Arr, c.Int(0)), c.And(c.Eq(sl.Cap, c.Int(0)), c.Eq(sl.Off, c.Int(0)))))
 		if sl.Arr.HasBVar() || sl.Len.HasBVar() {
+			// under a binder the current frontier is left out, so that the formula does not depend on the
+			// state it is evaluated in (frontier facts come from the base memories, see baseFacts)
+			fact = c.And(c.Ge(sl.Arr, c.Int(0)), c.Ge(sl.Off, c.Int(0)), c.Ge(sl.Len, c.Int(0)), c.Le(sl.Len, sl.Cap),
+				c.Implies(c.Eq(sl.Arr, c.Int(0)), c.And(c.Eq(sl.Cap, c.Int(0)), c.Eq(sl.Off, c.Int(0)))))
 			if s.binderFacts != nil {
 				*s.binderFacts = append(*s.binderFacts, fact)
 			}
@@ -163,6 +169,9 @@ func (h *Heap) assumeTyped(s *State, v Value) {
 		// maxref(v): the largest reference held inside the boxed value; it existed when v was stored
 		mr := c.App("maxref", SInt, v.Term)
 		fact := c.And(c.Ge(v.Term, c.Int(0)), c.Le(mr, s.allocTop), c.Ge(mr, c.Int(0)))
+		if v.Term.HasBVar() {
+			fact = c.And(c.Ge(v.Term, c.Int(0)), c.Ge(mr, c.Int(0)))
+		}
 		if it, ok := v.T.Underlying().(*types.Interface); ok && it.NumMethods() > 0 && h.ImplOf != nil {
 			fact = c.And(fact, c.Or(c.Eq(v.Term, c.Int(0)), h.ImplOf(v.Term, v.T)))
 		}
@@ -170,7 +179,11 @@ func (h *Heap) assumeTyped(s *State, v Value) {
 	case kString, kOpaque:
 		h.typeFact(s, v.Term, c.Ge(v.Term, c.Int(0)))
 	case kRef:
-		h.typeFact(s, v.Term, c.And(c.Ge(v.Term, c.Int(0)), c.Le(v.Term, s.allocTop)))
+		if v.Term.HasBVar() {
+			h.typeFact(s, v.Term, c.Ge(v.Term, c.Int(0)))
+		} else {
+			h.typeFact(s, v.Term, c.And(c.Ge(v.Term, c.Int(0)), c.Le(v.Term, s.allocTop)))
+		}
 	}
 }
 
@@ -230,31 +243,68 @@ func (h *Heap) alloc(s *State, hint string) *Term {
 func (h *Heap) readLeaves(s *State, prefix string, arity int, t types.Type, ref, idx *Term) Value {
 	ls := leavesOf(t)
 	ts := make([]*Term, len(ls))
-	bound := s.allocTop
 	for i, l := range ls {
 		m := h.region(s, prefix+l.Path, arity, l.Sort)
 		ts[i] = h.C.Read(m, ref, idx)
-		if i == 0 || len(ls) == 1 {
-			// the frontier of the region version applies only to objects that existed then; cells of
-			// objects allocated later (by callees, without a havoc of this region) are bounded by the
-			// current frontier only
-			rt := h.topOf(s, prefix+l.Path)
-			if rt != s.allocTop && !ref.HasBVar() {
-				bound = h.C.Ite(h.C.Le(ref, rt), rt, s.allocTop)
-			}
+		if l.Sort == SInt && (l.T == nil || isAllocRefType(l.T)) {
+			h.baseFacts(s, ts[i], false)
+		} else if l.Sort == SInt && l.T != nil && kindOf(l.T) == kIface {
+			h.baseFacts(s, ts[i], true)
 		}
 	}
 	v := unflatten(t, ts)
-	if len(ls) == 1 || kindOf(t) == kSlice {
-		// a tighter frontier: the value was stored before the region's current version was installed
-		saved := s.allocTop
-		s.allocTop = bound
-		h.assumeTyped(s, v)
-		s.allocTop = saved
-		return v
-	}
 	h.assumeTyped(s, v)
 	return v
+}
+
+func isAllocRefType(t types.Type) bool {
+	if isContextType(t) {
+		return true
+	}
+	switch t.Underlying().(type) {
+	case *types.Pointer, *types.Map, *types.Chan:
+		return true
+	}
+	return false
+}
+
+// baseFacts adds, for every application M(ref, ..) of a base memory inside t, the fact that the stored
+// reference is below the frontier of M, provided the object ref existed then (cells of objects allocated
+// later by callees are bounded by the current frontier only).
+func (h *Heap) baseFacts(s *State, t *Term, iface bool) {
+	c := h.C
+	if c.BaseTop == nil {
+		return
+	}
+	seen := map[*Term]bool{}
+	var walk func(t *Term)
+	walk = func(t *Term) {
+		if seen[t] {
+			return
+		}
+		seen[t] = true
+		if t.Op == "app" && t.Sort == SInt && !hasModBVar(t) {
+			if bt, ok := c.BaseTop[t.Name]; ok && len(t.Args) >= 1 {
+				fact := c.Implies(c.Le(t.Args[0], bt), c.Le(t, bt))
+				if iface {
+					// an interface value stored before the frontier holds only references below it
+					fact = c.Implies(c.Le(t.Args[0], bt), c.Le(c.App("maxref", SInt, t), bt))
+				}
+				if t.HasBVar() {
+					if s.binderFacts != nil {
+						*s.binderFacts = append(*s.binderFacts, fact)
+					}
+				} else if !s.typed[fact] {
+					s.typed[fact] = true
+					s.Assume(fact)
+				}
+			}
+		}
+		for _, a := range t.Args {
+			walk(a)
+		}
+	}
+	walk(t)
 }
 
 func (h *Heap) writeLeaves(s *State, prefix string, arity int, t types.Type, ref, idx *Term, v Value) {
@@ -550,4 +600,18 @@ func (h *Heap) mergeValue(g *Term, a, b Value) Value {
 		out[i] = h.C.Ite(g, ta[i], tb[i])
 	}
 	return unflatten(a.T, out)
+}
+
+// hasModBVar: the term mentions a variable bound by a quantified modifies target (those quantifiers live
+// inside havoc keep-conditions and are not visible to the enclosing specification binders).
+func hasModBVar(t *Term) bool {
+	if t.Op == "bvar" {
+		return strings.HasPrefix(t.Name, "modk")
+	}
+	for _, a := range t.Args {
+		if hasModBVar(a) {
+			return true
+		}
+	}
+	return false
 }
